@@ -248,6 +248,19 @@ CHECKS = {
         technique="TLC-enumerated program variants run through the code and its own detector; TLC trace validation",
         engine="tlc-gen+trace",
     ),
+    "C16": dict(
+        category="exploration",
+        text="The documented edit of a hardening codemod on a seed is the one the repository's own test expects (vendored corpus): the "
+        "tokens deleted / inserted between input and expected output (identifiers, attribute names, keywords, constants, star markers; "
+        "code in source order, import statements as a multiset).  For each of the 22 hardening codemods, seeds are varied along the "
+        "Variants.tla feature vectors and run through the real CLI; the delta of every rewritten file must equal the documented delta "
+        "of its seed - nothing else deleted, inserted or re-ordered; the observation (`bagOk`) is monitored by Trace_Run.",
+        design_ref="DESIGN.md §5 C16, §6",
+        note="The token oracle is Python's tokenize + difflib, trusted; TLA+ contributes the enumeration and the monitor. Programs outside "
+        "seeds x variations are not covered.",
+        technique="TLC-enumerated program variants run through the code; token-delta oracle monitored by TLC trace validation",
+        engine="tlc-gen+trace",
+    ),
 }
 
 NOT_APPLICABLE: list[dict] = []
